@@ -30,6 +30,7 @@ import (
 	coreblock "github.com/sourcenetwork/defradb/internal/core/block"
 	"github.com/sourcenetwork/defradb/internal/core/crdt"
 	"github.com/sourcenetwork/defradb/internal/datastore"
+	"github.com/sourcenetwork/defradb/internal/db/description"
 	"github.com/sourcenetwork/defradb/internal/db/id"
 	"github.com/sourcenetwork/defradb/internal/keys"
 	"github.com/sourcenetwork/defradb/internal/planner/mapper"
@@ -187,11 +188,46 @@ func (vf *VersionedFetcher) Start(ctx context.Context, prefixes ...keys.Walkable
 
 	vf.ctx = ctx
 
+	belongs, err := vf.commitBelongsToCollection(prefix.Cid)
+	if err != nil {
+		return NewErrFailedToSeek(prefix.Cid, err)
+	}
+	if !belongs {
+		// A commit of another collection is not a version of any document of this collection:
+		// nothing is replayed, the query yields nothing.
+		return vf.Fetcher.Start(ctx)
+	}
+
 	if err := vf.seekTo(prefix.Cid); err != nil {
 		return NewErrFailedToSeek(prefix.Cid, err)
 	}
 
 	return vf.Fetcher.Start(ctx)
+}
+
+// commitBelongsToCollection returns true if the commit with the given cid was written under a
+// schema version of the collection this fetcher reads.
+//
+// Commits are content addressed and field deltas are matched by field name, so without this check a
+// commit of any collection (whatever its access policy) could be read through any other collection.
+func (vf *VersionedFetcher) commitBelongsToCollection(c cid.Cid) (bool, error) {
+	blk, err := vf.txn.Blockstore().Get(vf.ctx, c)
+	if err != nil {
+		return false, NewErrVFetcherFailedToGetBlock(err)
+	}
+	block, err := coreblock.GetFromBytes(blk.RawData())
+	if err != nil {
+		return false, err
+	}
+	schema, err := description.GetSchemaVersion(datastore.CtxSetTxn(vf.ctx, vf.txn), block.Delta.GetSchemaVersionID())
+	if err != nil {
+		if errors.Is(err, corekv.ErrNotFound) {
+			// the schema version is not known locally, so it is not one of this collection
+			return false, nil
+		}
+		return false, err
+	}
+	return schema.Root == vf.col.Schema().Root, nil
 }
 
 // Start a fetcher with the needed info (cid embedded in a prefix)
